@@ -9,6 +9,7 @@ _MODULES = {
     'struct': 'dst.struct',
     'parallel': 'dst.parallel',
     'timeline': 'dst.timeline',
+    'composite': 'dst.composite',
 }
 
 # property -> list of (profile, share of the run budget)
@@ -27,6 +28,7 @@ PROPERTY_PROFILES = {
     'C11': [('struct', 1.0)],
     'C13': [('parallel', 1.0)],
     'C19': [('timeline', 1.0)],
+    'C16': [('composite', 1.0)],
     'C12': [('kernel', 0.6), ('steps', 0.2), ('struct', 0.2)],
 }
 
